@@ -209,6 +209,12 @@ def run_proof(pr, units, work):
         r.status = 'error'
         r.note = 'solver log contains ignoring/parse error'
         return r
+    nb = sorted(set(n.split('.no-body.')[-1] for n, dsc, st in r.props if '.no-body.' in n and st != 'SUCCESS'))
+    if nb:
+        # the lowered text calls a function the unit neither defines nor stubs: nothing can be concluded about it
+        r.status = 'error'
+        r.note = 'calls function(s) without a body in the unit: ' + ', '.join(nb)
+        return r
     if any('EXTRACTION FAILED' in dsc and st != 'SUCCESS' for n, dsc, st in r.props):
         r.status = 'error'
         r.note = 'reaches a function that could not be lowered: ' + ', '.join(sorted(set(dsc.split(': ', 1)[-1] for n, dsc, st in r.props if 'EXTRACTION FAILED' in dsc and st != 'SUCCESS')))
